@@ -95,6 +95,11 @@ def count_nodes(ev):
 def static_exclusions(case):
     """triggers of OPEN findings that belong to OTHER properties (C09/C10/C14/C15/C17), recognised on the stylesheet text.  Only findings
     that are open are excluded; each exclusion is counted in the evidence."""
+    return [h for h in static_triggers(case) if h in ALL_OPEN]
+
+
+def static_triggers(case):
+    """ids of the findings (open or not) whose trigger is present in the stylesheet / document text"""
     import re
     from .. import ref_xpath
     hits = []
@@ -134,7 +139,9 @@ def static_exclusions(case):
         hits.append('F-C17-any-from-ancestors')
     if re.search(r'xml:space=', case['files']['doc.xml']) and 'strip-space' in text:
         hits.append('F-C13-xml-space-ignored')
-    return [h for h in hits if h in ALL_OPEN]
+    if 'namespace-alias' in text and len([n for n in case['files'] if n.endswith('.xsl')]) > 1:
+        hits.append('F-C14-alias-import-scope')
+    return hits
 
 
 def transform_with_fallback(ctx, fields, **kw):
@@ -233,7 +240,8 @@ def signature(case, detail):
     d = detail.get('diff', '') or detail.get('err', '')
     d = re.sub(r"/\d+", '/N', d)
     d = re.sub(r"'[^']*'|\"[^\"]*\"|\d+", '_', d)
-    return '%s|%s' % (detail['what'], d[:80])
+    # the triggers of findings present in the case: a finding's signature_re requires its own (DESIGN 2.7 point 7)
+    return '%s|%s|%s' % (detail['what'], d[:80], ','.join(sorted(set(static_triggers(case)))))
 
 
 # ------------------------------------------------------------------------------------------ reduction
